@@ -158,10 +158,10 @@ let () =
           let rec len = function [] -> 0 | _ :: t -> 1 + len t in
           Printf.fprintf oc "SERVED-COUNT %d\n" (len !srv.sv_active)
       | ["TTLPROBE"] ->
-          (* real elapsed seconds are observed, not modelled: an item with TTL 3 on the
-             tick-granular clock is retrievable during the first 0.8 s and gone 5.3 s after it was
-             stored, also when the server was suspended for 4.2 of those seconds *)
-          Printf.fprintf oc "TTL live-before-0.8s=1 gone-after-5.3s-despite-a-4.2s-stall=1\n"
+          (* real elapsed seconds are observed, not modelled: an item with TTL 5 on the
+             tick-granular clock is retrievable during the first 0.8 s and gone as soon as the
+             server runs again after having been suspended for the following 7 s *)
+          Printf.fprintf oc "TTL live-before-0.8s=1 gone-once-resumed-after-a-7s-stall=1\n"
       | ["MEMPROBE"] ->
           (* which records the policy evicts is its random choice; what is observed is how
              much stays stored, which Model/Store.v pins: C14_bound_after_store, C15_no_eviction_below_limit *)
